@@ -9,6 +9,7 @@ FLAGSETS = {
     "bl": ["-optimize-basic-latin"],
     "lr": ["-support-left-recursion"],
     "all": ["-optimize-parser", "-optimize-basic-latin", "-support-left-recursion"],
+    "lropt": ["-support-left-recursion", "-optimize-parser"],
 }
 
 
@@ -17,6 +18,7 @@ def ref_case(g, props, flagset="std", unconstrained=False, entry="", file_name="
     cid = "%s_%s%s" % (g["name"], flagset, suffix)
     rel = cid + "/p"
     g = json.loads(json.dumps(g))  # deep copy: assign_args mutates
+    g["_optimized"] = "-optimize-parser" in FLAGSETS[flagset]
     peg = gspec.print_peg(g, "p")
     files = {
         "h.go": refharness.harness_src(g, "p", props, unconstrained=unconstrained, entry=entry, file_name=file_name),
@@ -171,7 +173,7 @@ def check_C15(tier, seed):
 
 def run_ref_property(prop, tier, seed, cat, hprops, Nq, Nt, tq=60, tt=900, flagsets_q=("std",), flagsets_t=("std", "opt"),
                      unconstrained=False, bounds_extra=None, assumptions=(), file_name="", level="model_checking", quick_stride=1,
-                     post=None):
+                     post=None, max_steps=2_000_000):
     rep = Report(prop, tier, seed, level)
     w = Work()
     w.build_pigeon()
@@ -183,12 +185,12 @@ def run_ref_property(prop, tier, seed, cat, hprops, Nq, Nt, tq=60, tt=900, flags
     for g in use:
         for fs in fss:
             cases.append(ref_case(g, hprops, flagset=fs, unconstrained=unconstrained, file_name=file_name))
-    twin = ref_case(cat[0], ["TWIN"], suffix="_twin")
+    twin = ref_case(cat[0], ["TWIN"], flagset=fss[0], suffix="_twin")
     catcheck.prepare(w, cases + [twin])
     agg = catcheck.explore(w, rep, cases, prop, r"Harness_%s$" % hprops[0], N, tmo, "ref", seed=seed,
-                           validate_pkgs=6 if quick else 24)
+                           validate_pkgs=6 if quick else 24, max_steps=max_steps)
     twin_check(w, rep, twin)
-    b = {"input_bytes_max": N, "grammars": len(cases), "flag_sets": list(fss), "ssa_step_limit_per_path": 2000000,
+    b = {"input_bytes_max": N, "grammars": len(cases), "flag_sets": list(fss), "ssa_step_limit_per_path": max_steps,
          "alphabet": "all 256 byte values" if unconstrained else "terminal bytes of the grammar (both cases) + \\n z 0xC3 0xA9"}
     b.update(bounds_extra or {})
     std_cov(rep, agg, cases, b,
@@ -282,4 +284,37 @@ def check_C09(tier, seed):
             "one state = one explored path (class of inputs on which the optimized and the unoptimized real parser take the same decisions)", REL_FUNCS)
     rep.cov["disagreements_checked"] = agg["cex"]
     rep.assumptions += ["grammars with throw/recover are excluded (ast.Walk does not support them: see C13)"]
+    return rep.finish()
+
+
+def check_C08(tier, seed):
+    return run_ref_property("C08", tier, seed, cores.lr_catalogue(), ["C08"], 4, 6, tq=120, tt=1800,
+                            flagsets_q=("lr", "lropt"), flagsets_t=("lr", "lropt"),
+                            bounds_extra={"Memoize": "symbolic (non-optimized parsers)"},
+                            assumptions=["left-recursive rules of the form A <- A a1/.../A an/b1/.../bm, entered through the leader"])
+
+
+def check_C16(tier, seed):
+    return run_ref_property("C16", tier, seed, cores.budget_catalogue(), ["C16"], 2, 3, tq=120, tt=1800,
+                            flagsets_q=("std",), flagsets_t=("std", "lr"), max_steps=300_000,
+                            bounds_extra={"budget": "symbolic, 1..24 (1..12 for the non-terminating grammars)", "Memoize": "symbolic"})
+
+
+def check_C06(tier, seed):
+    rep = Report("C06", tier, seed, "translation_validation")
+    w = Work()
+    w.build_pigeon()
+    quick = tier == "quick"
+    N, tmo = (3, 90) if quick else (4, 900)
+    pc = cores.pair_core()
+    cat = (pc[::4] if quick else pc) + cores.composites() + cores.fail_catalogue() + [g for g in cores.context_catalogue() if not gspec.uses_state(g)]
+    cases = [rel_case(g, ["C06"], [], []) for g in cat]
+    twin = rel_case(pc[0], ["TWIN"], [], [], suffix="_twin")
+    catcheck.prepare(w, cases + [twin])
+    agg = catcheck.explore(w, rep, cases, "C06", r"Harness_C06$", N, tmo, "rel", seed=seed, validate_pkgs=6 if quick else 20)
+    twin_check(w, rep, twin)
+    std_cov(rep, agg, cases, {"input_bytes_max": N, "options": "Memoize, Debug, Statistics symbolic booleans (8 combinations)"},
+            "one state = one explored path (input class x option combination)", REL_FUNCS + ["getMemoized/setMemoized", "parseRuleMemoize", "incChoiceAltCnt"])
+    rep.cov["disagreements_checked"] = agg["cex"]
+    rep.assumptions += ["fmt.Printf (Debug output) is an empty stub: formatting is not the subject", "pure code blocks only (no state blocks, no throw/recover)"]
     return rep.finish()
